@@ -23,7 +23,8 @@ REQUIRED_THEOREMS = ["C18_first_stop", "C18_never_self", "C18_needs_history", "C
                      "C18_first_stop_multi", "C18_stop_request_stands", "C18_stop_request_stands_dispatch",
                      "C18_fit_keeps_monitoring", "C18_clear_history_monitors",
                      "C18_derived_requests", "C18_fit_cases", "C18_fitLoop_is_C12_fit", "C18_stop_trace",
-                     "C18_fit_cases_multi", "C18_multiReq_derived", "C18_fitRunMulti_is_C12_fit"]
+                     "C18_fit_cases_multi", "C18_multiReq_derived", "C18_fitRunMulti_is_C12_fit",
+                     "C18_gen_deviation_eq_model", "C18_gen_on_epoch_end_eq_model", "C18_gen_deviation_is_documented"]
 EXTRA_TRUSTED = [
     "C18: the monitored values are scripted functions of the epoch; float64 sub/div/abs/sqrt and `<` of Lean's Float are IEEE, "
     "as are Python's and numpy's, so decisions are compared exactly",
@@ -1298,8 +1299,18 @@ def deprecated_twin(ctx, case):
                sig="EarlyStopping/deprecated-twin", theorem="C18_deprecated_eq")
 
 
+def gen_tie(ctx):
+    """translator tie (notes/translator.md): the deviation formulas and `on_epoch_end` of `EarlyStopping` are re-translated from the
+    source of the checked tree into Lean and compared with the committed lean/QV/Gen/EarlyStopping.lean, which
+    `C18_gen_deviation_eq_model` / `C18_gen_on_epoch_end_eq_model` prove equal to the model's `deviation` / `onEpochEnd`; a textually
+    different translation is re-proved in a scratch copy of the lake project"""
+    from . import gentie
+    return gentie.tie(ctx, "EarlyStopping", "C18_gen_deviation_eq_model, C18_gen_on_epoch_end_eq_model")
+
+
 def run(ctx):
     ctx.rule = RULE
+    gen_tie(ctx)
     # the F8 witness, on every run
     one_case(ctx, f8_witness(), known_probe=True)
     if ctx.driver is not None:
